@@ -566,7 +566,13 @@ func (s *c08State) spoil(st M, how string) bool {
 		if op == "update" {
 			info["uc"] = c
 		} else if op == "recover" {
-			info["rc"] = c
+			if s.r.Intn(2) == 0 {
+				info["rc"] = c
+			} else {
+				info["uc"] = c // the recovery key as the next update key
+				// everything else about the request is in order, the signer can sign it
+				s.sign(s.lastSigner, s.lastHeaders, opb.RecoverSigned(s.code, s.lastSigner, opb.Delta(c, s.lastPatches), info["rc"].(string), s.lastAO, s.lastWindow))
+			}
 		} else {
 			return false
 		}
